@@ -41,6 +41,11 @@ try:
     touched_schema = "schema/" in open(os.path.join(seed, "patch.diff")).read()
     tcmd = "(cd schema && go test -vet=off -count=1 ./...)" if touched_schema else "go test -vet=off -count=1 -timeout 240s ./..."
     rct, outt = run(tcmd, cwd=wt, timeout=600)
+    if rct != 0:
+        # a few event / process-set tests of the repository fail or hang in ~2 % of runs on the
+        # pristine tree as well: one retry, as scripts/baseline_off.sh does
+        res["existing_tests_first_attempt"] = "fail: " + "; ".join(re.findall(r"--- FAIL: (\w+)", outt))[:300]
+        rct, outt = run(tcmd, cwd=wt, timeout=600)
     res["existing_tests_with_change"] = "pass" if rct == 0 else ("fail: " + "; ".join(re.findall(r"--- FAIL: (\w+)", outt))[:300] + (" (timeout)" if rct == 124 else ""))
 finally:
     run(f"git -C /repo worktree remove --force {wt}"); shutil.rmtree(wt, ignore_errors=True)
